@@ -7,6 +7,9 @@
 //!   own <n>                    own steps of the scenario
 //!   dup <i> / bgdup <i>        own / background step i has the same keyword and text as the last own step
 //!   rule 0|1                   scenario lives in a rule
+//!   twin                       a second scenario `t` of the same feature (and rule) at the SAME position as the scripted
+//!                              one (features built by hand carry whatever positions their builder gives them); its
+//!                              events are the `tev ...` lines (same forms as `ev ...`)
 //!   ev started|finished r=..
 //!   ev hook before|after started|passed|failed r=..
 //!   ev bg|step <idx> started|passed|skipped|failed [notfound|ambiguous|panic] r=..
@@ -78,6 +81,11 @@ pub fn run(lines: &[Vec<String>]) {
     let feature = Source::new(feat.clone());
     let rule = in_rule.then(|| Source::new(feat.rules[0].clone()));
     let scen = Source::new(if in_rule { feat.rules[0].scenarios[0].clone() } else { feat.scenarios[0].clone() });
+    let twin = Source::new({
+        let mut t: gherkin::Scenario = (*scen).clone();
+        t.name = "t".into();
+        t
+    });
     let bg_steps: Vec<_> = feat.background.iter().flat_map(|b| b.steps.iter().cloned()).collect();
     let own_steps: Vec<_> = scen.steps.clone();
 
@@ -88,7 +96,8 @@ pub fn run(lines: &[Vec<String>]) {
     let caps = || regex::Regex::new("").unwrap().capture_locations();
     let info = || -> event::Info { Arc::new("boom".to_owned()) };
 
-    for l in lines.iter().filter(|l| l[0] == "ev") {
+    for l in lines.iter().filter(|l| l[0] == "ev" || l[0] == "tev") {
+        let scen = if l[0] == "tev" { twin.clone() } else { scen.clone() };
         let r = l.iter().find(|t| t.starts_with("r=")).map(|t| retries(t)).unwrap_or(None);
         let sc = |e: event::Scenario<W>| -> parser::Result<Event<Ev<W>>> {
             Ok(Event::new(Ev::scenario(feature.clone(), rule.clone(), scen.clone(), e.with_retries(r))))
@@ -228,6 +237,12 @@ pub fn run(lines: &[Vec<String>]) {
     let s = w.scenarios_stats();
     let t = w.steps_stats();
     let wr = rec.log.lock().unwrap().iter().filter(|l| l.starts_with("write:")).count();
+    // features / rules have no getter: read them from the summary text that was written (-1: no such line)
+    let text = rec.texts.lock().unwrap().join("\n");
+    let count = |what: &str| -> i64 {
+        regex::Regex::new(&format!(r"(\d+) {what}s?\b")).unwrap().captures(&text).map_or(-1, |c| c[1].parse().unwrap())
+    };
+    println!("SUMMARY features={} rules={}", count("feature"), count("rule"));
     println!(
         "RESULT sc_passed={} sc_skipped={} sc_failed={} sc_retried={} st_passed={} st_skipped={} st_failed={} st_retried={} g_passed={} g_skipped={} g_failed={} g_retried={} parsing_errors={} failed_hooks={} failed={} inner_events={} summary_writes={}",
         s.passed, s.skipped, s.failed, s.retried, t.passed, t.skipped, t.failed, t.retried,
